@@ -1070,7 +1070,7 @@ func c15Gen(ctx *core.Ctx) {
 		}
 	}
 	// --- Set racing a Cleanup's bulk delete, then Reset -------------------------------------
-	nrr, rounds2 := 4, 25000
+	nrr, rounds2 := 2, 25000
 	if ctx.Thorough {
 		nrr, rounds2 = 20, 400000
 	}
